@@ -17,7 +17,9 @@ EXPLANATION = (
     "(R2) Ordered composite axes: the dense state axis is coefficient-major (n major, d minor) wherever it is produced -- kron(a, I_d), kron(q, Lambda), "
     "repeat(p, d), kron(b, Lambda) of the exponential prior, and to_multivariate_normal of the isotropic and block-diagonal models; np.tile for np.repeat, "
     "swapped kron arguments or a missing transpose give (d.n) and are reported.  (3) Zeroth-order linearisation evaluates f at the mean and selects output rows "
-    "without a Jacobian in all three factorisations (what makes the Kronecker argument apply); the calibrated-scale prototypes are a scalar for dense/isotropic and per-dimension for block-diagonal."
+    "without a Jacobian in all three factorisations (what makes the Kronecker argument apply); the calibrated-scale prototypes are a scalar for dense/isotropic and per-dimension for block-diagonal.  "
+    "(4) The convenience factories (prior_wiener_integrated, prior_exponential) of each model only forward: standard deviations from _tcoeffs_standard_deviation(mean, is_exact, inexact_eps), "
+    "then the *_diffuse constructor with diffuse_derivatives / diffuse_eps / output_scale unchanged; _add_diffuse_derivatives appends k zero means and k standard deviations diffuse_eps*ones in every sibling."
 )
 LEVEL = "other"
 TECHNIQUE = "units/shape type inference with ordered composite axes; sibling cross-check of inferred signatures (Engler-style agreement of implementations of one interface)"
@@ -42,6 +44,8 @@ def run(chk, S: Session):
     s1 = chk.rule("R-C14-S1", "sibling agreement of the inferred (layout-erased) unit signatures of the three factorisations", floor=20)
     r2 = chk.rule("R-C14-R2", "dense composite axes are coefficient-major (n major, d minor) at every producer", floor=9)
     r3 = chk.rule("R-C14-3", "TS0 without Jacobian in all three factorisations; calibrated-scale prototypes", floor=6)
+    r4 = chk.rule("R-C14-4", "prior factories of the three models: arguments forwarded unchanged to the *_diffuse constructor; diffuse extension as documented in each sibling", floor=12)
+    factory_rules(chk, S, r4)
     nin, nout, nmid = AD.dim("n_in"), AD.dim("n_out"), AD.dim("n_mid")
     sigs: dict = {}
     for fam in c08.FAMS:
@@ -222,3 +226,69 @@ def misc_rules(chk, S, r3):
         want_rank = 1 if fam.name == "blockdiag" else 0
         ok = t is not None and t.rank == want_rank and (want_rank == 0 or t.axes[0].size == fam.d)
         r3.require(True if ok else (None if t is None else False), f"{fam.name} prototype_output_scale_calibrated", f"{AD.show(t)}", f"prototype has type {AD.show(t)}; expected {'one scale per dimension (d,)' if want_rank else 'a scalar'}", fam.module)
+
+
+SSMS = [("dense", DENSE, "state_space_model_dense"), ("isotropic", ISO, "state_space_model_isotropic"), ("blockdiag", BLOCK, "state_space_model_blockdiag")]
+
+
+def factory_rules(chk, S, r4):
+    """Same user arguments -> same initial variable and prior in all three models: the convenience factories only forward."""
+    from ..interp import RaiseSignal
+
+    for fam, mod, cls in SSMS:
+        qual = f"{mod}.{cls}"
+        for fac, with_ode in (("prior_wiener_integrated", False), ("prior_exponential", True)):
+            it = S.interp()
+            ssm = it.instantiate(it.class_value(qual), [], {}, "<harness>")
+            std_calls, dif_calls = [], []
+
+            def std_hook(itp, fn, a, kw, site, _c=std_calls):
+                _c.append((a[1:], kw))
+                return T.atom("STD")
+
+            def dif_hook(itp, fn, a, kw, site, _c=dif_calls):
+                _c.append((a[1:], kw))
+                return T.atom("PRIOR")
+
+            it.method_hooks[f"{qual}._tcoeffs_standard_deviation"] = std_hook
+            it.method_hooks[f"{qual}.{fac}_diffuse"] = dif_hook
+            m = A("tcoeffs_mean")
+            kw = {"is_exact": A("is_exact"), "inexact_eps": A("inexact_eps"), "diffuse_derivatives": A("ddiff"), "diffuse_eps": A("deps"), "output_scale": A("oscale")}
+            args = [A("ode"), m] if with_ode else [m]
+            cfg = {"model": fam, "factory": fac}
+            try:
+                out = call(it, method(it, ssm, fac), *args, **kw)
+            except RaiseSignal as e:
+                if getattr(e.exc, "cls_name", "") == "NotImplementedError":
+                    r4.ok(f"{cls}.{fac}", "documented as not implemented (raises NotImplementedError before doing anything)", qual, cfg, nontrivial=False)
+                else:
+                    r4.fail(f"{cls}.{fac}", f"raises {e.exc}", qual, cfg)
+                continue
+            except AnalysisError as e:
+                r4.unknown(f"{cls}.{fac}", str(e), qual, cfg)
+                continue
+            S.absorb(it)
+            ok_std = len(std_calls) == 1 and list(std_calls[0][0]) == [m] and std_calls[0][1] == {"is_exact": kw["is_exact"], "inexact_eps": kw["inexact_eps"]}
+            r4.require(ok_std, f"{cls}.{fac} initial standard deviations", "_tcoeffs_standard_deviation(mean, is_exact=is_exact, inexact_eps=inexact_eps)", f"called with {T.show(std_calls, 3)}", qual, cfg)
+            want_args = [*args, T.atom("STD")]
+            want_kw = {"diffuse_derivatives": kw["diffuse_derivatives"], "diffuse_eps": kw["diffuse_eps"], "output_scale": kw["output_scale"]}
+            ok_dif = out is T.atom("PRIOR") and len(dif_calls) == 1 and list(dif_calls[0][0]) == want_args and dif_calls[0][1] == want_kw
+            r4.require(ok_dif, f"{cls}.{fac} forwards", f"{fac}_diffuse(..., std, diffuse_derivatives=, diffuse_eps=, output_scale=) unchanged", f"called with {T.show(dif_calls, 3)}", qual, cfg)
+        # the diffuse extension
+        it = S.interp()
+        ssm = it.instantiate(it.class_value(qual), [], {}, "<harness>")
+        m = [T.atom("m0", array=True), T.atom("m1", array=True)]
+        sd = [T.atom("s0", array=True), T.atom("s1", array=True)]
+        for k in (1, 3):
+            try:
+                out = call(it, method(it, ssm, "_add_diffuse_derivatives"), m, sd, diffuse_derivatives=k, diffuse_eps=A("deps"))
+            except (AnalysisError, RaiseSignal) as e:
+                r4.unknown(f"{cls}._add_diffuse_derivatives", str(e), qual, {"model": fam, "k": k})
+                continue
+            mm, ss = out
+            z = T.mk("np.zeros_like", (m[0],))
+            ok = isinstance(mm, list) and isinstance(ss, list) and len(mm) == 2 + k and len(ss) == 2 + k and mm[:2] == m and ss[:2] == sd and all(x is z for x in mm[2:])
+            u0 = ss[2] if ok else None
+            ok = ok and all(x is u0 for x in ss[2:]) and "deps" in T.atoms_of(u0) and T.atoms_of(u0) <= ({"deps", "s0"} if fam == "isotropic" else {"deps", "s0", "m0"}) and any(t.op == "np.ones_like" for t in T.subterms(u0))
+            r4.require(bool(ok), f"{cls}._add_diffuse_derivatives", f"{k} zero means like mean[0], {k} standard deviations diffuse_eps * ones like std[0], appended after the given coefficients", f"{T.show(out, 4)}", qual, {"model": fam, "k": k})
+        S.absorb(it)
